@@ -19,6 +19,10 @@ func init() {
 		Run: func(c *Ctx) {
 			c.ruleFeatureFields("R-FEATURE-FIELDS")
 			c.ruleOptionOverride("R-FEATURE-FIELDS")
+			c.ruleFeatureInherit("R-FEATURE-INHERIT", 12)
+			c.ruleOptionPromotion("R-OPTION-PROMOTION", 5)
+			c.ruleDefaultsImmutable("R-DEFAULTS-IMMUTABLE")
+			c.ruleRequiredNumbers("R-REQUIRED-NUMBERS", 2)
 		},
 	})
 }
